@@ -7,6 +7,26 @@ CHECKS = [
           "compared with independent Meeus/Jones/Butcher, Meeus-Julian and day-number conversion; the space is finite so the check decides the property.",
   "note": "Trusts CPython date arithmetic and the published algorithms in refs/easter_ref.py (self-checked each run)."},
 ]
+CHECKS += [
+ {"id": "C03", "engine": "E1-shape",
+  "technique": "deviation-bounded exhaustive enumeration of relativedelta field shapes x boundary operands against an ordinal-arithmetic reference model",
+  "text": "Every relativedelta with at most k non-default constructor fields (k=3 quick, 4 thorough) from boundary-laden menus is added to and "
+          "subtracted from every operand of a boundary set (date, naive, aware; leap days, month ends, years 1 and 9999); each result is compared with "
+          "a reference that applies the documented replace/shift/clip/duration/weekday order by integer arithmetic. Complete within the stated menus and bound.",
+  "note": "Trusts CPython datetime/calendar and refs/reldelta_ref.py; values outside the menus are not covered."},
+ {"id": "C09", "engine": "E1-shape (all pairs)",
+  "technique": "exhaustive enumeration of all ordered pairs of a boundary set and of a two-year day window; inverse law + brute-force maximal month shift",
+  "text": "All ordered pairs of an 804-element boundary set (month ends, leap days, three adjacent years, three times of day; thorough: 2780 elements) and all "
+          "ordered day pairs of 2003-07-01..2005-06-30, plus mixed date/datetime, aware and calendar-edge pairs; oracle is the inverse law dt2+rd==dt1, "
+          "normalisation bounds, only-relative-fields, and the month part compared with a brute-force search.",
+  "note": "Trusts CPython datetime; pairs outside the sets are not covered."},
+ {"id": "C16", "engine": "E1-shape (shapes + all pairs)",
+  "technique": "deviation-bounded exhaustive enumeration of relativedelta values; unary/scalar laws on each, binary laws and eq/hash contract on all ordered pairs",
+  "text": "All deltas with <= k fields (k=2 quick, 3 thorough) including carries in both signs, dyadic floats and every weekday spelling are checked for "
+          "normalisation, total preservation, rebuild-equality, negation/abs/scalar laws; ALL ordered pairs of the k<=2 set are checked for symmetric equality, "
+          "eq<=>same normalised fields, hash consistency, equal sums and +/- totals.",
+  "note": "Field-wise integer model in the check itself; floats restricted to dyadic values."},
+]
 _claimed = {c["id"] for c in CHECKS}
 NOT_APPLICABLE = [{"property_id": p, "reason": "check not built yet (work in progress; see DESIGN.md §5 build order)"}
                   for p in ALL if p not in _claimed]
